@@ -25,7 +25,10 @@
   * `advance_without_tree_restarts`, `first_advance_is_fresh`, `advance_defined_partial`, `…_counterexample`,
     `…_as_extracted` (fixes/C19-3): the advancing overload on a planner without a tree.
   * `nodes_hold_particles`, `advance_promotes_existing_child` (MCTS / POMCP): every node below the root holds a particle, so
-    POMCP's "lost track of the belief" restart is dead code and an advance on an existing child always keeps the subtree.
+    POMCP's "lost track of the belief" restart is dead code and an advance on an existing child always keeps the subtree;
+    `R.RExP`, `R.advance_promotes_existing_child`: the same for rPOMCP's `isSampleBeliefEmpty()` restart.
+  * `ReachX`, `ReachX.inv`, `node_count_is_sum_x`, `v_is_mean_x`, `particles_consistent_x`: histories in which
+    `setExploration` changes the bonus between calls keep every invariant.
   * `rup_replaces_value`: the datapoint a node passes upwards is the one that turns a mean of `N - 1` copies of the old
     node value into `N` copies of the new one.
 -/
@@ -303,6 +306,60 @@ theorem advance_promotes_existing_child {m : Mdl} {t t0 : Tree} (h : Reach m t) 
     · omega
     · rw [hex] at h1; simp at h1
     · exact nodes_hold_particles h [(a, k)] (by simp) hex h2
+
+
+/-! ### Histories in which the exploration constant is changed between calls (`setExploration`)
+
+  `Reach m` fixes the planner description `m` for the whole history.  The public setters change only what the UCT scan
+  sees: `setExploration` the bonus (`m.bonus`; the driver's near-tie slack `uctSlack` is bookkeeping of the check).  None of
+  the invariants mentions either field, so they survive a change of both between any two calls. -/
+
+/-- `m'` is `m` with another exploration bonus / slack -/
+def SameButBonus (m m' : Mdl) : Prop := m' = { m with bonus := m'.bonus, uctSlack := m'.uctSlack }
+
+theorem Inv.change_bonus {m m' : Mdl} (hm : SameButBonus m m') {rmin rmax : Rat} {t : Tree} (h : Inv m rmin rmax t) :
+    Inv m' rmin rmax t := by
+  unfold SameButBonus at hm
+  rw [hm]
+  exact ⟨h.stat, fun hb => h.rng ⟨hb.g0, hb.r⟩, ⟨h.str.nex, h.str.pre, h.str.par⟩, h.zero, h.nodes, h.root⟩
+
+/-- trees reachable by any history of public calls with the exploration constant changed at will between calls -/
+inductive ReachX (m : Mdl) : Tree → Prop
+  | init : ReachX m Tree.init
+  | call (m' : Mdl) (t t' : Tree) (op : Op) (log rest : List Step) : SameButBonus m m' → ReachX m t →
+      AITB.Tree.call m' t op log = some (t', rest) → ReachX m t'
+
+theorem SameButBonus.symm' {m m' : Mdl} (h : SameButBonus m m') : SameButBonus m' m := by
+  unfold SameButBonus at h ⊢
+  rw [h]
+
+/-- **every invariant of `Reach` holds on `ReachX`**: counts, means, ranges, particles, node set — whatever exploration
+    constants the calls of the history were made with -/
+theorem ReachX.inv {m : Mdl} (rmin rmax : Rat) {t : Tree} (h : ReachX m t) : Inv m rmin rmax t := by
+  induction h with
+  | init => exact Inv.fresh m rmin rmax [] 0 0
+  | call m' t t' op log rest hm _ hc ih =>
+    exact ((call_spec (ih.change_bonus hm) hc).1).change_bonus hm.symm'
+
+theorem node_count_is_sum_x {m : Mdl} {t : Tree} (h : ReachX m t) (q : Path) : t.nN q = sumTo (t.aN q) (t.nA q) := by
+  have := (h.inv 0 0).stat.cnt q
+  simpa using this
+
+theorem v_is_mean_x {m : Mdl} {t : Tree} (h : ReachX m t) (q : Path) (a : Nat) :
+    t.aN q a = (t.rets q a).length ∧ t.aV q a = mean (t.rets q a) :=
+  ⟨(h.inv 0 0).stat.len q a, (h.inv 0 0).stat.avg q a⟩
+
+theorem particles_consistent_x {m : Mdl} {t : Tree} (h : ReachX m t) :
+    ∀ (q : Path) (x : Nat), x ∈ t.parts q → Follows m (t.parts []) q x := by
+  have hs := (h.inv 0 0).str
+  intro q
+  induction q using List.reverseRecOn with
+  | nil => intro x hx; exact Follows.root x hx
+  | append_singleton q k ih =>
+    intro x hx
+    obtain ⟨st, h1, h2, h3, h4, h5⟩ := hs.par q k x hx
+    rw [← h4]
+    exact Follows.step q k st (ih st.s h1) h2 h3 h5
 
 
 end AITB.Tree
@@ -1163,6 +1220,170 @@ theorem leaf_visit_breaks_sum_counterexample (t : RTree) (c : Path) (imm : Rat) 
   simp only [upd, if_true]
   rw [h0, hv]
   simpa using himm
+
+
+/-! ### rPOMCP: every node below the root tracks a particle — the "lost track of the belief" restart is dead code -/
+
+/-- below the root, a node that exists has a listed particle type with a positive count -/
+def RExP (t : RTree) : Prop := ∀ q, q ≠ [] → t.ex q = true → ∃ s, s ∈ t.keys q ∧ t.tb q s ≠ 0
+
+theorem RExP.of_eq {t t1 : RTree} (h : RExP t) (e1 : t1.ex = t.ex) (e2 : t1.keys = t.keys) (e3 : t1.tb = t.tb) : RExP t1 := by
+  intro q hq hex; rw [e2, e3]; rw [e1] at hex; exact h q hq hex
+
+theorem rdown_ex (m : Mdl) (t : RTree) (p : Path) (st : Step) :
+    ∀ q, (rdown m t p st).1.ex q = true → q = p ++ [(st.a, st.o)] ∨ t.ex q = true := by
+  intro q
+  unfold rdown RTree.updBK
+  simp only
+  split
+  · intro h
+    by_cases hq : q = p ++ [(st.a, st.o)]
+    · exact Or.inl hq
+    · right; simpa [upd, hq] using h
+  · intro h; exact Or.inr h
+
+theorem RExP.rdown {m : Mdl} {t : RTree} {p : Path} {st : Step} (h : RExP t) : RExP (rdown m t p st).1 := by
+  obtain ⟨_, d2, d3, _, _⟩ := rdown_part_fields m t p st
+  intro q hq hex
+  rw [d2, d3]
+  by_cases hqc : q = p ++ [(st.a, st.o)]
+  · subst hqc
+    refine ⟨st.s1, ?_, ?_⟩
+    · simp only [upd, if_true]
+      split
+      · rename_i hc; simpa using hc
+      · simp
+    · simp [upd, updN]
+  · rcases rdown_ex m t p st q hex with h1 | h1
+    · exact absurd h1 hqc
+    · obtain ⟨s, hs1, hs2⟩ := h q hq h1
+      exact ⟨s, by simpa [upd, hqc] using hs1, by simpa [upd, hqc] using hs2⟩
+
+theorem rup_ex_fields (m : Mdl) (k : Nat) (t : RTree) (p : Path) (a depth : Nat) (imm : Rat) :
+    (rup m k t p a depth imm).1.ex = t.ex := by
+  unfold rup
+  dsimp only
+  split <;> rfl
+
+theorem ralloc_ex {t t1 : RTree} {p : Path} {n : Nat} (h : t.alloc p n = some t1) : t1.ex = t.ex := by
+  unfold RTree.alloc at h
+  split at h
+  · simp at h; subst h; rfl
+  · split at h
+    · simp at h; subst h; rfl
+    · simp at h
+
+theorem rsim_exp (m : Mdl) (H k : Nat) : ∀ (fuel : Nat) (t : RTree) (p : Path) (s depth : Nat) (log : List Step)
+    (t' : RTree) (r : Rat) (rest : List Step),
+    rsim m H k fuel t p s depth log = some (t', r, rest) → RExP t → RExP t' := by
+  intro fuel
+  induction fuel with
+  | zero => intro t p s depth log t' r rest h; simp [rsim] at h
+  | succ fuel ih =>
+    intro t p s depth log t' r rest h hI
+    cases log with
+    | nil => simp [rsim] at h
+    | cons st log =>
+      simp only [rsim] at h
+      split at h
+      · have hd : RExP (rdown m t p st).1 := RExP.rdown hI
+        split at h
+        · simp at h
+        · rename_i t3 imm log' hr
+          simp at h
+          obtain ⟨rfl, rfl, rfl⟩ := h
+          obtain ⟨_, u2, u3, _, _⟩ := rup_part_fields m k t3 p st.a depth imm
+          refine RExP.of_eq ?_ (rup_ex_fields m k t3 p st.a depth imm) u3 u2
+          split at hr
+          · split at hr
+            · simp at hr
+            · rename_i t2 hal
+              obtain ⟨_, a2, a3, _, _⟩ := ralloc_part hal
+              exact ih _ _ _ _ _ _ _ _ hr (hd.of_eq (ralloc_ex hal) a3 a2)
+          · simp at hr
+            obtain ⟨rfl, _, rfl⟩ := hr
+            exact hd.of_eq rfl rfl rfl
+      · simp at h
+
+theorem rrunSims_exp (m : Mdl) (H k : Nat) : ∀ (n : Nat) (t : RTree) (log : List Step) (t' : RTree) (rest : List Step),
+    rrunSims m H k n t log = some (t', rest) → RExP t → RExP t' := by
+  intro n
+  induction n with
+  | zero => intro t log t' rest h hI; simp [rrunSims] at h; obtain ⟨rfl, _⟩ := h; exact hI
+  | succ n ih =>
+    intro t log t' rest h hI
+    cases log with
+    | nil => simp [rrunSims] at h
+    | cons st log =>
+      simp only [rrunSims] at h
+      split at h
+      · split at h
+        · simp at h
+        · rename_i t1 r log' hsim
+          exact ih _ _ _ _ h (rsim_exp m H k _ _ _ _ _ _ _ _ _ hsim hI)
+      · simp at h
+
+theorem RExP.fresh (support : List Nat) (nA : Nat) : RExP (RTree.fresh support nA) := by
+  intro q hq hex; simp [RTree.fresh, hq] at hex
+
+theorem RExP.reroot {t : RTree} (h : RExP t) (k : Key) : RExP (t.reroot k) := fun q _ hex => h (k :: q) (by simp) hex
+
+theorem rprepare_exp {t t0 : RTree} {op : Op} {H iters : Nat} (h : RExP t) (hp : rprepare t op = some (t0, H, iters)) : RExP t0 := by
+  cases op with
+  | fresh parts nA H' iters' =>
+    simp [rprepare] at hp
+    obtain ⟨rfl, _, _⟩ := hp
+    exact RExP.fresh parts nA
+  | adv a o parts nA H' iters' =>
+    simp only [rprepare] at hp
+    split at hp
+    · split at hp
+      · cases hal : (t.reroot (a, o)).alloc [] nA with
+        | none => simp [hal] at hp
+        | some t1 =>
+          simp [hal] at hp
+          obtain ⟨rfl, _, _⟩ := hp
+          obtain ⟨_, a2, a3, _, _⟩ := ralloc_part hal
+          exact (h.reroot (a, o)).of_eq (ralloc_ex hal) a3 a2
+      · simp at hp
+        obtain ⟨rfl, _, _⟩ := hp
+        exact RExP.fresh parts nA
+    · simp at hp
+
+theorem RReach.exp {m : Mdl} {k : Nat} {t : RTree} (h : RReach m k t) : RExP t := by
+  induction h with
+  | init nA => exact RExP.fresh [] nA
+  | call t t' op log rest _ hc ih =>
+    unfold rcall at hc
+    split at hc
+    · simp at hc
+    · rename_i t0 H iters hp
+      have h0 := rprepare_exp ih hp
+      split at hc
+      · simp at hc; obtain ⟨rfl, _⟩ := hc; exact h0
+      · split at hc
+        · simp at hc
+        · rename_i t1 rest' hr
+          simp at hc
+          obtain ⟨rfl, _⟩ := hc
+          exact (rrunSims_exp m H k _ _ _ _ _ hr h0).of_eq rfl rfl rfl
+
+/-- **rPOMCP advance_promotes_existing_child.**  On a reachable tree, `sampleAction(a, o, horizon)` on an existing `(a, o)` child
+    never takes the "rPOMCP lost track of the belief" restart (`isSampleBeliefEmpty()`): the promoted node always holds a
+    particle, and the call starts from exactly that subtree. -/
+theorem advance_promotes_existing_child {m : Mdl} {k : Nat} {t t0 : RTree} (h : RReach m k t) {a o : Nat} {parts : List Nat}
+    {nA H iters H' iters' : Nat} (ha : a < t.nA []) (hex : t.ex [(a, o)] = true)
+    (hp : rprepare t (Op.adv a o parts nA H iters) = some (t0, H', iters')) :
+    (t.reroot (a, o)).alloc [] nA = some t0 := by
+  obtain ⟨s, hs1, hs2⟩ := h.exp [(a, o)] (by simp) hex
+  have hany : (t.keys [(a, o)]).any (fun s => t.tb [(a, o)] s != 0) = true := by
+    rw [List.any_eq_true]; exact ⟨s, hs1, by simpa using hs2⟩
+  simp only [rprepare, ha, if_true, hex, hany, Bool.and_self] at hp
+  cases hal : (t.reroot (a, o)).alloc [] nA with
+  | none => simp [hal] at hp
+  | some t1 =>
+    simp [hal] at hp
+    rw [hp.1]
 
 
 /-! hypotheses are satisfiable: a concrete rPOMCP history (fresh call with two simulations at horizon 2) -/
